@@ -243,6 +243,32 @@ def ev_twice_identity(p, keep):
             c(a.arguments), c(x.arguments)]
 
 
+def ev_repeat_decode_mutate(p, keep):
+    """The same header and method buffers decoded six times; after each
+    decode the result is mutated in place: no later decode and no earlier
+    result may change (caches admitted after N sightings, shallow copies)."""
+    out = []
+    held = []
+    for k in range(6):
+        h, rh = decode(p, BUF_HDR)
+        q, rq = decode(p, BUF_QD)
+        keep(h), keep(q)
+        out.append([rh, rq])
+        for (oh, oq), (wh, wq) in held:
+            out.append([frame_view(oh) == wh, frame_view(oq) == wq])
+        out.append([any(h.properties is o[0].properties or
+                        h.properties.headers is o[0].properties.headers or
+                        q.arguments is o[1].arguments
+                        for o, _w in held)])
+        h.properties.headers['mut%d' % k] = k
+        h.properties.headers['h'].append(k)
+        h.properties.content_type = 'mutated-%d' % k
+        q.arguments['mut%d' % k] = k
+        q.arguments['a'][1]['b'] = -k
+        held.append(((h, q), (frame_view(h), frame_view(q))))
+    return out
+
+
 def ev_encode_input_kept(p, keep):
     t = {'b': [1, {'x': bytearray(b'\x01')}], 'a': A.D('1.5')}
     before = c(t)
@@ -347,6 +373,7 @@ EVENTS = [
     ('mutate decoded array', ev_mutate_decoded_array),
     ('decode twice identities', ev_twice_identity),
     ('encode keeps its input', ev_encode_input_kept),
+    ('decode six times, mutating each result', ev_repeat_decode_mutate),
 ]
 TOGGLES = {'toggle ()': True, 'toggle (True)': True, 'toggle (False)': False}
 
